@@ -1,5 +1,6 @@
 import Driver.Expr
 import Model.IdManager
+import Model.IdSeq
 open Lean Drv Expr Engine DrvExpr
 
 def optF (j : Json) (k : String) : Except String (Option Float) :=
@@ -24,6 +25,19 @@ def parseDict (j : Json) : Except String (String → Option Float) := do
   let ps ← parsePairs j
   pure fun n => ps.lookup n
 
+def parseOp (j : Json) : Except String (IdM.Op String Float) := do
+  match ← getStr j "k" with
+  | "evalDict" => pure (.evalDict (← parseDict (← j.getObjVal? "dict")))
+  | "evalNone" => pure .evalNone
+  | "setVector" => pure (.setVector (← floatList (← j.getObjVal? "x")))
+  | "changeInitE" => pure (.changeInitE (← parseDict (← j.getObjVal? "dict")))
+  | "changeInitB" => pure (.changeInitB (← parseDict (← j.getObjVal? "dict")))
+  | _ => throw "bad-seq-op"
+
+def outJson : Option (List Float × List Float) → Json
+  | none => Json.null
+  | some (v, f) => Json.mkObj [("free", jFloats v), ("fixed", jFloats f)]
+
 def handle (j : Json) : Except String Json := do
   let op ← getStr j "op"
   match op with
@@ -31,17 +45,35 @@ def handle (j : Json) : Except String Json := do
     let decls ← (← getArr j "decls").toList.mapM parseDecl
     let cols ← strList (← j.getObjVal? "cols")
     let dict ← parseDict (← j.getObjVal? "dict")
-    match IdM.prepare decls [] [] cols with
+    let rvs ← strList (← j.getObjVal? "rvs")
+    let draws ← strList (← j.getObjVal? "draws")
+    match IdM.prepare decls rvs draws cols with
     | .error dups => pure (Json.mkObj [("duplicates", jStrs dups)])
     | .ok t =>
       pure (Json.mkObj [
         ("free", jStrs t.free), ("fixed", jStrs t.fixed), ("cols", jStrs t.cols),
+        ("rvs", jStrs t.rvs), ("draws", jStrs t.draws), ("all", jStrs t.all),
         ("freeValues", jFloats (IdM.freeValues t decls dict)),
         ("fixedValues", jFloats (IdM.fixedValues t decls)),
         ("bounds", jArr ((IdM.bounds t decls).map fun (a, b) => jArr [jOptF a, jOptF b])),
         ("dictToList", match IdM.dictToList t dict with
                        | none => Json.null
                        | some l => jFloats l)])
+  | "seq" =>
+    -- a sequence of public calls on one numbering: what the engine receives at each call
+    let decls ← (← getArr j "decls").toList.mapM parseDecl
+    let cols ← strList (← j.getObjVal? "cols")
+    let ops ← (← getArr j "ops").toList.mapM parseOp
+    match IdM.prepare decls [] [] cols with
+    | .error dups => pure (Json.mkObj [("duplicates", jStrs dups)])
+    | .ok t =>
+      let s0 := IdM.initSt t decls
+      let s1 := IdM.runState t s0 ops
+      pure (Json.mkObj [
+        ("free", jStrs t.free), ("fixed", jStrs t.fixed),
+        ("outs", jArr ((IdM.run t s0 ops).map outJson)),
+        ("finalVec", jFloats s1.vec), ("finalFixed", jFloats s1.fixedVec),
+        ("finalDecls", jArr (s1.decls.map declJson))])
   | "changeInit" =>
     let decls ← (← getArr j "decls").toList.mapM parseDecl
     let dict ← parseDict (← j.getObjVal? "dict")
